@@ -36,6 +36,12 @@ type netDesc struct {
 //	3: difficulty 2^32+   — a hard network: unmined headers never meet the target
 //	4: difficulty 2^16+
 //	5: difficulty 2^199+  — near the documented upper limit
+//
+// and the classes at which the 64-bit limbs of the implementation's 256-bit work values carry:
+//
+//	6: 2^64 - 1000          7: 2^63 + 2^60        8: 3*2^64 - 2^56       9: 2^66 + 2^62
+//	10: 2^128 - 2^100       11: 2^127 + 2^124     12: 2^192 - 2^150      13: 2^75 + 2^71 (today's mainnet magnitude)
+//	14: 2^193 + 2^190
 var targets = map[int]types.BlockID{
 	1: {0x10},
 	2: {0xFF, 0xFF, 0xFF, 0xFF, 0xFF, 0xFF, 0xFF, 0xFF, 0xFF, 0xFF, 0xFF, 0xFF, 0xFF, 0xFF, 0xFF, 0xFF, 0xFF, 0xFF, 0xFF, 0xFF, 0xFF, 0xFF, 0xFF, 0xFF, 0xFF, 0xFF, 0xFF, 0xFF, 0xFF, 0xFF, 0xFF, 0xFF},
@@ -45,6 +51,39 @@ var targets = map[int]types.BlockID{
 }
 
 var genesisTime = time.Unix(1618033988, 0)
+
+func pow2(k uint) *big.Int { return new(big.Int).Lsh(big.NewInt(1), k) }
+
+func init() {
+	for cls, d := range map[int]*big.Int{
+		6:  new(big.Int).Sub(pow2(64), big.NewInt(1000)),
+		7:  new(big.Int).Add(pow2(63), pow2(60)),
+		8:  new(big.Int).Sub(new(big.Int).Mul(pow2(64), big.NewInt(3)), pow2(56)),
+		9:  new(big.Int).Add(pow2(66), pow2(62)),
+		10: new(big.Int).Sub(pow2(128), pow2(100)),
+		11: new(big.Int).Add(pow2(127), pow2(124)),
+		12: new(big.Int).Sub(pow2(192), pow2(150)),
+		13: new(big.Int).Add(pow2(75), pow2(71)),
+		14: new(big.Int).Add(pow2(193), pow2(190)),
+	} {
+		targets[cls] = bigID(new(big.Int).Div(maxT, d))
+	}
+}
+
+// highClass: initial difficulty near the documented upper limit (chains are kept short)
+func highClass(tgt int) bool { return tgt == 5 || tgt == 12 || tgt == 14 }
+
+func bigID(x *big.Int) (id types.BlockID) {
+	x.FillBytes(id[:])
+	return
+}
+
+func bigWork(x *big.Int) (w consensus.Work) {
+	if err := w.UnmarshalText([]byte(x.String())); err != nil {
+		panic(err)
+	}
+	return
+}
 
 func (d netDesc) network() *consensus.Network {
 	n := &consensus.Network{
@@ -70,7 +109,7 @@ func (d netDesc) tla() map[string]any {
 // A chainDesc describes one chain: either a TLC skeleton (explicit timestamps and medians chosen
 // by the model) or a seeded random chain under a timestamp regime.
 type chainDesc struct {
-	Kind   string  `json:"kind"` // "skeleton" | "random"
+	Kind   string  `json:"kind"` // "skeleton" | "random" | "mag"
 	Net    netDesc `json:"net"`
 	TS     []int   `json:"ts,omitempty"` // skeleton: timestamp of header i (seconds since genesis)
 	M2     []int   `json:"m2,omitempty"` // skeleton: twice the median the model validated it against
@@ -79,6 +118,7 @@ type chainDesc struct {
 	Seed   int64   `json:"seed,omitempty"`
 	Steps  int     `json:"steps"`
 	Thin   int     `json:"thin,omitempty"` // random: 0 = log every step; k = log windows (see keep)
+	Mag    *magInit `json:"mag,omitempty"` // mag: the constructed state the chain starts from; Regime = timestamp choice of every header
 }
 
 // ---------------------------------------------------------------------------
@@ -132,6 +172,7 @@ type stepMeta struct {
 	oakLow   bool              // the oak time before the step was below one second (the retargeting divides by it)
 	decisive map[string]string // candidate kind -> "accept" | "reject:<conjunct>" (the only false conjunct) | "reject:multi"
 	sig      string            // identity of the step for distinctness
+	limbs    limbFacts         // at which magnitude the step took place and which limb boundaries its arithmetic crossed
 }
 
 type chainRun struct {
@@ -334,14 +375,25 @@ func (d chainDesc) run(chainID int, upto int) *chainRun {
 
 	genesis := types.Block{Timestamp: genesisTime}
 	var cs consensus.State
+	if d.Kind == "mag" {
+		d.Mag.network(n)
+	}
 	if p, v := vlib.Recover(func() { cs, _ = consensus.ApplyBlock(n.GenesisState(), genesis, consensus.V1BlockSupplement{}, time.Time{}) }); p {
 		stub, _ := logState(consensus.State{Network: n})
 		out.add(map[string]any{"ev": "reset", "chain": chainID, "i": 0, "cont": false, "net": d.Net.tla(), "s": stub, "panic": fmt.Sprintf("ApplyBlock(genesis): %v", v)}, &stepMeta{}, 0)
 		return out
 	}
-	hs := cs
 	tsHist := []time.Time{genesis.Timestamp}
 	offs := []int{0}
+	if d.Kind == "mag" {
+		// the chain starts from a constructed state: the history behind it is on schedule
+		cs = d.Mag.state(cs, d.Net)
+		for h := 1; h <= int(d.Mag.Start); h++ {
+			offs = append(offs, h*interval)
+			tsHist = append(tsHist, genesisTime.Add(time.Duration(h*interval)*time.Second))
+		}
+	}
+	hs := cs
 	ids := []types.BlockID{cs.Index.ID}
 	reset := func(cont bool, i int) {
 		s, pn := logState(cs)
@@ -359,6 +411,8 @@ func (d chainDesc) run(chainID int, upto int) *chainRun {
 		m2 := 0
 		if d.Kind == "skeleton" {
 			tsOff, m2 = d.TS[i-1], d.M2[i-1]
+		} else if d.Kind == "mag" {
+			tsOff = pickTimestamp(d.Regime, offs, interval)
 		} else {
 			tsOff = regimeTimestamp(d.Regime, r, rst, offs, interval, i)
 		}
@@ -515,6 +569,7 @@ func (d chainDesc) run(chainID int, upto int) *chainRun {
 		}
 		line["sib"] = map[string]any{"W": vlib.Limbs(workBig(sib.TotalWork)), "D": vlib.Limbs(workBig(sib.Difficulty))}
 		line["hv"] = hv
+		meta.limbs = limbFactsOf(prevCs, cs, meta.era)
 		meta.changed = prevCs.Difficulty != cs.Difficulty
 		meta.oakLow = prevCs.OakTime < time.Second
 		var sig [8]byte
